@@ -403,6 +403,10 @@ pub fn concretize_map(t: &str, am: &AbsMap, ascii: bool) -> MapSpec {
         if a.pos % 3 == 0 {
           l += 1 + (a.pos as u32 >> 14);
           c = (a.pos as u32 >> 8) & 3;
+        } else if c >= u32::MAX - 8 {
+          // nothing lies to the right of an extreme column: continue on the next line
+          l += 1;
+          c = 0;
         } else {
           c += 1 + ((a.pos as u32 >> 8) & 3);
         }
@@ -412,13 +416,33 @@ pub fn concretize_map(t: &str, am: &AbsMap, ascii: bool) -> MapSpec {
       let orig = if a.mapped == 0 {
         None
       } else {
+        // mostly small values around the tables / the text, now and then extreme ones
+        let extreme = |sel: u16, small: u32| -> u32 {
+          match sel % 23 {
+            0 => u32::MAX,
+            1 => u32::MAX - 1,
+            2 => 1 << 31,
+            3 => (1 << 29) + 1,
+            _ => small,
+          }
+        };
         Some(Orig {
-          src: idx(a.src, 4) as u32,
-          line: 1 + idx(a.oline, 5) as u32 * if a.oline % 8 == 0 { 1000 } else { 1 },
-          col: idx(a.ocol, 8) as u32 * if a.ocol % 16 == 0 { 100000 } else { 1 },
-          name: if a.name < 4 { Some(a.name as u32) } else { None },
+          src: extreme(a.src, idx(a.src, 4) as u32),
+          line: extreme(a.oline, 1 + idx(a.oline, 5) as u32 * if a.oline % 8 == 0 { 1000 } else { 1 }).max(1),
+          col: extreme(a.ocol, idx(a.ocol, 8) as u32 * if a.ocol % 16 == 0 { 100000 } else { 1 }),
+          name: if a.name < 4 { Some(extreme(a.pos.rotate_left(3), a.name as u32)) } else { None },
         })
       };
+      // generated columns far beyond the line now and then (the generated line stays near the text:
+      // the splitter's work is linear in it)
+      let gc = match a.ocol % 29 {
+        0 => c.max(u32::MAX - 2),
+        1 => c.max(1 << 31),
+        _ => c,
+      };
+      if gc != c {
+        c = gc;
+      }
       segs.push(Seg { line: l, col: c, orig });
     }
   } else {
